@@ -8,8 +8,11 @@ for every emission site and every (severity, certainty) it can report with, a fo
 and reports with this severity / certainty".  This file is the formula language, its evaluation, and the decision procedures
 whose soundness is proved in Proofs/SevGate.lean.
 
-The language is POSITIVE in the option atoms (`opt`): there is no negation of an option.  Facts about the analysed program and
-about other settings are `lit k pol` (a boolean of the environment with a polarity).
+Option tests keep their real polarity: `opt a` = the test is true, `nopt a` = the test is false
+(`if (mSettings->severity.isEnabled(Severity::style)) return;` leaves `nopt (enabled style)` for the rest).  A guard is monotone
+in the options only if it is in the POSITIVE fragment (no reachable `nopt`): that is DECIDED per row of the regenerated table
+(`Row.posOk`), it is not a property of the language.  Facts about the analysed program and about other settings are
+`lit k pol` (a boolean of the environment with a polarity).
 -/
 namespace Cppcheck.SevGate
 
@@ -48,6 +51,7 @@ inductive Formula where
   | tt
   | ff
   | opt (a : OptAtom)
+  | nopt (a : OptAtom)
   | lit (k : Nat) (pol : Bool)
   | and (a b : Formula)
   | or (a b : Formula)
@@ -65,6 +69,7 @@ def eval (o : Opts) (env : Env) : Formula → Bool
   | .tt => true
   | .ff => false
   | .opt a => evalAtom o env a
+  | .nopt a => !evalAtom o env a
   | .lit k pol => env.lit k == pol
   | .and a b => eval o env a && eval o env b
   | .or a b => eval o env a || eval o env b
@@ -95,13 +100,22 @@ def gatedSev : Sev → Bool
 
 /-! ### disjunctive normal form and the decision procedures -/
 
+/-- the positive fragment: no test of an option for being disabled -/
+def Formula.positive : Formula → Bool
+  | .nopt _ => false
+  | .and a b => a.positive && b.positive
+  | .or a b => a.positive && b.positive
+  | _ => true
+
 inductive Literal where
   | opt (a : OptAtom)
+  | nopt (a : OptAtom)
   | lit (k : Nat) (pol : Bool)
   deriving DecidableEq, Repr, Inhabited
 
 def evalLit (o : Opts) (env : Env) : Literal → Bool
   | .opt a => evalAtom o env a
+  | .nopt a => !evalAtom o env a
   | .lit k pol => env.lit k == pol
 
 abbrev Conj := List Literal
@@ -110,6 +124,7 @@ def dnf : Formula → List Conj
   | .tt => [[]]
   | .ff => []
   | .opt a => [[.opt a]]
+  | .nopt a => [[.nopt a]]
   | .lit k p => [[.lit k p]]
   | .and a b => (dnf a).flatMap (fun c => (dnf b).map (fun d => c ++ d))
   | .or a b => dnf a ++ dnf b
@@ -128,10 +143,13 @@ def OptAtom.beq : OptAtom → OptAtom → Bool
   | _, _ => false
 
 def hasOpt (c : Conj) (a : OptAtom) : Bool :=
-  c.any (fun l => match l with | .opt b => b.beq a | .lit _ _ => false)
+  c.any (fun l => match l with | .opt b => b.beq a | _ => false)
 
 def hasLit (c : Conj) (k : Nat) (p : Bool) : Bool :=
-  c.any (fun l => match l with | .lit k' p' => k' == k && p' == p | .opt _ => false)
+  c.any (fun l => match l with | .lit k' p' => k' == k && p' == p | _ => false)
+
+def hasNopt (c : Conj) : Bool :=
+  c.any (fun l => match l with | .nopt _ => true | _ => false)
 
 /-- Settings flags (`checkLibrary`, `isPremiumEnabled("id")` with empty premiumArgs, …) are the literals `0 … nFlags-1`; the
 property quantifies over `--enable` / `--inconclusive` only, every other option keeps its default, which is `false` for each of
@@ -142,6 +160,7 @@ def defaultsHold (nFlags : Nat) (env : Env) : Prop := ∀ k, k < nFlags → env.
 def dead (nFlags : Nat) (c : Conj) : Bool :=
   c.any (fun l => match l with
     | .lit k p => (p && decide (k < nFlags)) || hasLit c k (!p)
+    | .nopt a => hasOpt c a
     | .opt _ => false)
 
 /-- `f ⊨ a` for every option set and every environment with the default flags -/
@@ -169,6 +188,11 @@ def Row.gateOk (D : Nat) (r : Row) : Bool := !r.needsGate || entails D r.guard (
 def Row.gateOkCli (D : Nat) (r : Row) : Bool := !r.needsGate || entailsCli D r.guard (.enabled r.sev)
 def Row.incOk (D : Nat) (r : Row) : Bool := r.cert != .inconclusive || entails D r.guard .inconclusive
 
+/-- the guard of the row is in the positive fragment as far as it can be satisfied at all: no live conjunction of its normal
+form tests an option for being disabled.  This is what makes the row monotone — a source change that puts an emission under
+`if (isEnabled(x)) return;` / in the else branch of `if (isEnabled(x))` makes it false. -/
+def Row.posOk (D : Nat) (r : Row) : Bool := (dnf r.guard).all (fun c => dead D c || !hasNopt c)
+
 /-- can the row report under `o` for SOME environment with the default flags?  (used by the correspondence: every
 finding the real binary reports must be possible for some row of its id / severity / certainty) -/
 def possible (D : Nat) (f : Formula) (o : Opts) : Bool :=
@@ -176,6 +200,9 @@ def possible (D : Nat) (f : Formula) (o : Opts) : Bool :=
     | .opt (.enabled (.const s)) => o.sev s
     | .opt (.enabled (.sym _)) => true
     | .opt .inconclusive => o.inconclusive
+    | .nopt (.enabled (.const s)) => !o.sev s
+    | .nopt (.enabled (.sym _)) => true
+    | .nopt .inconclusive => !o.inconclusive
     | .lit _ _ => true))
 
 /-! ### helpers for the generated table and the driver -/
@@ -193,6 +220,9 @@ def disj : List Formula → Formula
 def en (s : Sev) : Formula := .opt (.enabled (.const s))
 def enSym (k : Nat) : Formula := .opt (.enabled (.sym k))
 def inc : Formula := .opt .inconclusive
+def nen (s : Sev) : Formula := .nopt (.enabled (.const s))
+def nenSym (k : Nat) : Formula := .nopt (.enabled (.sym k))
+def ninc : Formula := .nopt .inconclusive
 
 def Sev.ofBit : Nat → Sev
   | 0 => .error | 1 => .warning | 2 => .style | 3 => .performance | 4 => .portability | 5 => .information
